@@ -4,7 +4,8 @@ from propslib import fn_scope
 PROP = dict(
     extract=["editor"],
     lean_targets=["Chewing.Props.C07"],
-    runs=[dict(bin="editor", args=["--profile", "c07"], args_thorough=["--profile", "c07"])],
+    runs=[dict(bin="editor", args=["--profile", "c07"], args_thorough=["--profile", "c07"]),
+          dict(bin="capi_props", tag="capi_props", args=["--histories", "300", "--calls", "40"], args_thorough=["--histories", "6000", "--calls", "40"])],
     scope=fn_scope("ed key", "ed select", "ed startsel", "ed cancelsel", "ed jump", "ed setopts", "ed setlayout",
                    "ed setengine", "ed learn", "ed unlearn", "ed cands"),
     level="proof",
@@ -86,9 +87,18 @@ MANIFEST = dict(
          "it is no longer true, and the oracle class is gone: a recurrence is reported as new) and F32 (stale page / open empty "
          "list after an option / layout / dictionary call made while a list is open; page_in_range_refuted and the _partial "
          "theorem were replaced by the full page_in_range, the oracle class F32-stale-page is gone) were repaired by fix: "
-         "commits; no known finding is left for C07.",
+         "commits. C API (round 2, run capi_props): generated key/API histories (every chewing_handle_* handler, chewing_cand_open/"
+         "close/choose_by_index/list_*, paging keys, page sizes 1..10, selection keys, option setters; three kinds of data "
+         "directory incl. one without symbols.dat) are driven through a C context and in lock-step through a twin "
+         "chewing::editor::Editor; after every call every chewing_cand_* getter (TotalPage/CurrentPage/ChoicePerPage/TotalChoice, "
+         "string_by_index over the whole list, the Enumerate/hasNext/String loop, list_has_next/prev) is compared with the twin's "
+         "Rust getter and the statement is evaluated on the C answers (ceil, page below count, Enumerate = list from page*per on, "
+         "choose i on page p = item p*per+i, out-of-range rejected unchanged). Known finding FX1 (found there): over an EMPTY "
+         "symbol table (no symbols.dat) the symbol list is opened with 0 candidates / 0 pages - open_list_on_a_page_refuted; "
+         "page_in_range is the partial form (PageOk = page below count OR nothing listed).",
     note="Trusted: Lean kernel (standard axioms), read-only snapshot hooks, harness + compiled model driver. The C functions "
-         "chewing_cand_* are modelled by reading (thin wrappers over the Rust getters the correspondence drives).",
+         "chewing_cand_* are modelled by reading (thin wrappers over the Rust getters the correspondence drives) and compared "
+         "getter by getter with the Rust getters of a lock-step twin editor by the capi_props run (sampled, not proved).",
     technique="Lean 4 proof (list/division arithmetic for all lists and page sizes; invariant by case analysis over every arm "
               "of the key-event state machine and induction over histories; refutation by evaluation of a concrete "
               "witness); per-step model/implementation correspondence incl. the candidate getters",
